@@ -162,6 +162,15 @@ Proof. apply skel_c_map_ext. apply Forall_forall. intros; apply skel_rewrite_if.
 Lemma skel_map_rewrite_deep pn l : skel_c (map (rewrite_deep pn) l) = skel_c l.
 Proof. apply skel_c_map_ext. apply Forall_forall. intros; apply skel_rewrite_deep. Qed.
 
+(* dropping hoisted declarations does not touch the skeleton *)
+Lemma skel_drop_hoisted pn l : skel_c (drop_hoisted pn l) = skel_c l.
+Proof.
+  unfold drop_hoisted. induction l as [|n l IH]; [reflexivity|]. cbn [filter].
+  destruct (is_hoisted pn n) eqn:E; cbn [negb].
+  - rewrite IH. destruct n; try discriminate. reflexivity.
+  - cbn [skel_c]. rewrite IH. reflexivity.
+Qed.
+
 (* declarations and assignments contribute nothing to the skeleton *)
 Lemma skel_promo glob names s : skel_c (fst (promo_decls glob names s)) = [].
 Proof.
@@ -194,6 +203,18 @@ Proof.
     match goal with |- context [tuple_binds xr er ?K ?S] => specialize (IH er K S); destruct (tuple_binds xr er K S) end;
     cbn in *; exact IH.
 Qed.
+Lemma skel_tuple_binds_main xs es k s : skel_c (fst (tuple_binds_main xs es k s)) = [].
+Proof.
+  revert es k s. induction xs as [|x xr IH]; intros [|e er] k s; cbn; try reflexivity.
+  match goal with |- context [tuple_binds_main xr er ?K ?S] => specialize (IH er K S); destruct (tuple_binds_main xr er K S) end.
+  cbn in *. exact IH.
+Qed.
+Lemma skel_tr_tuple_main xs es s r : tr_tuple_main xs es s = Some r -> skel_c (fst r) = [].
+Proof.
+  unfold tr_tuple_main. destruct (negb _); [discriminate|].
+  match goal with |- context [tuple_binds_main ?A ?B ?K ?S] => pose proof (skel_tuple_binds_main A B K S) as H; destruct (tuple_binds_main A B K S) end.
+  intros [= <-]. cbn in *. rewrite skel_c_app, skel_tuple_tmps, H. reflexivity.
+Qed.
 Lemma skel_tr_tuple glob xs es s r : tr_tuple glob xs es s = Some r -> skel_c (fst r) = [].
 Proof.
   unfold tr_tuple. destruct (negb _); [discriminate|].
@@ -223,11 +244,12 @@ Proof.
     inversion Hr; subst. rewrite skel_c_app. cbn. rewrite Hs. f_equal. eapply IH; eauto. }
   destruct p; cbn [tr_block] in H.
   - (* PAssign *)
-    pose proof (skel_tr_assign glob x e s) as Hs.
-    destruct (tr_assign glob x e s) as [a0 a1]. eapply K; [exact H|exact Hs].
+    pose proof (skel_tr_assign glob x (rt_ann ml e) s) as Hs.
+    destruct (tr_assign glob x (rt_ann ml e) s) as [a0 a1]. eapply K; [exact H|exact Hs].
   - eapply K; [exact H|reflexivity].
   - (* PTuple *)
-    head_opt H a0 a1 E. eapply K; [exact H|]. rewrite skel_pn_unfold. apply (skel_tr_tuple _ _ _ _ _ E).
+    head_opt H a0 a1 E. eapply K; [exact H|]. rewrite skel_pn_unfold.
+    destruct (glob && ml); [apply (skel_tr_tuple_main _ _ _ _ E)|apply (skel_tr_tuple _ _ _ _ _ E)].
   - (* PIf *)
     head_opt H a0 a1 E. eapply K; [exact H|]. clear H K. rewrite skel_pn_unfold.
     destruct (tr_block ml f false ld (child_of s (globals s)) body) as [[ns1 cs1]|] eqn:E1; [|discriminate].
@@ -249,27 +271,27 @@ Proof.
     { cbn. rewrite Eb. f_equal. f_equal. eapply IH; eauto. }
     clear Eb. rename Eb' into Eb.
     assert (RW : forall pn (brs : list (Z * list cnode * tst)),
-               skel_cb (map (fun x => (fst (fst x), map (rewrite_if pn) (snd (fst x)))) brs)
+               skel_cb (map (fun x => (fst (fst x), map (rewrite_if pn) (drop_hoisted pn (snd (fst x))))) brs)
                = map (fun x => (fst (fst x), skel_c (snd (fst x)))) brs).
-    { intros pn l. induction l as [|[[c0 n0] t0] r IHr]; cbn; [reflexivity|].
-      rewrite skel_map_rewrite_if. f_equal. exact IHr. }
+    { intros pn l. induction l as [|[[c0 n0] t0] r IHr]; cbn [map skel_cb fst snd]; [reflexivity|].
+      rewrite skel_map_rewrite_if, skel_drop_hoisted. f_equal. exact IHr. }
     destruct els as [|e0 els'].
     + match type of E with (let '(decls, s3) := promo_decls ?G ?N ?S in _) = _ =>
         pose proof (skel_promo G N S) as Hp; destruct (promo_decls G N S) as [decls s3] end.
       inversion E; subst. cbn in Hp. rewrite skel_c_app, Hp. cbn [app skel_c]. rewrite skel_cn_unfold, app_nil_r.
-      cbn [skel_cb]. rewrite skel_map_rewrite_if, RW. unfold brs in Eb; cbn [map fst snd] in Eb. rewrite Eb. reflexivity.
+      cbn [skel_cb]. rewrite skel_map_rewrite_if, skel_drop_hoisted, RW. unfold brs in Eb; cbn [map fst snd] in Eb. rewrite Eb. reflexivity.
     + destruct (tr_block ml f false ld (child_of s gl1) (e0 :: els')) as [[nse cse]|] eqn:Ee; [|discriminate].
       match type of E with (let '(decls, s3) := promo_decls ?G ?N ?S in _) = _ =>
         pose proof (skel_promo G N S) as Hp; destruct (promo_decls G N S) as [decls s3] end.
       inversion E; subst. cbn in Hp. rewrite skel_c_app, Hp. cbn [app skel_c]. rewrite skel_cn_unfold, app_nil_r.
-      cbn [skel_cb]. rewrite !skel_map_rewrite_if, RW. unfold brs in Eb; cbn [map fst snd] in Eb. rewrite Eb. rewrite (IH _ _ _ _ _ _ Ee). reflexivity.
+      cbn [skel_cb]. rewrite !skel_map_rewrite_if, !skel_drop_hoisted, RW. unfold brs in Eb; cbn [map fst snd] in Eb. rewrite Eb. rewrite (IH _ _ _ _ _ _ Ee). reflexivity.
   - (* PWhile *)
     head_opt H a0 a1 E. eapply K; [exact H|]. clear H K. rewrite skel_pn_unfold.
     destruct (tr_block ml f false (S ld) (child_of s (globals s)) body) as [[nsb cs]|] eqn:Eb; [|discriminate].
     match type of E with (let '(decls, s3) := promo_decls ?G ?N ?S in _) = _ =>
       pose proof (skel_promo G N S) as Hp; destruct (promo_decls G N S) as [decls s3] end.
     inversion E; subst. cbn in Hp. rewrite skel_c_app, Hp. cbn [app skel_c]. rewrite skel_cn_unfold, app_nil_r.
-    rewrite skel_map_rewrite_deep. rewrite (IH _ _ _ _ _ _ Eb). reflexivity.
+    rewrite skel_map_rewrite_deep, skel_drop_hoisted. rewrite (IH _ _ _ _ _ _ Eb). reflexivity.
   - (* PFor *)
     head_opt H a0 a1 E. eapply K; [exact H|]. clear H K. rewrite skel_pn_unfold.
     match type of E with match tr_block ml f false (S ld) ?B body with _ => _ end = _ =>
@@ -277,7 +299,7 @@ Proof.
     match type of E with (let '(decls, s3) := promo_decls ?G ?N ?S in _) = _ =>
       pose proof (skel_promo G N S) as Hp; destruct (promo_decls G N S) as [decls s3] end.
     inversion E; subst. cbn in Hp. rewrite skel_c_app, Hp. cbn [app skel_c]. rewrite skel_cn_unfold, app_nil_r.
-    rewrite skel_map_rewrite_deep. rewrite (IH _ _ _ _ _ _ Eb). reflexivity.
+    rewrite skel_map_rewrite_deep, skel_drop_hoisted. rewrite (IH _ _ _ _ _ _ Eb). reflexivity.
   - (* PBreak *)
     destruct ld as [|[|ld']]; [discriminate| |].
     + destruct ml; [discriminate|]. eapply K; [exact H|reflexivity].
@@ -298,7 +320,7 @@ Proof.
   intros p c H. unfold transl in H.
   destruct (tr_block false (bsize (p_pre p)) true 0 st0 (p_pre p)) as [[setup s1]|] eqn:E1; [|discriminate].
   destruct (p_main p) as [body|].
-  - destruct (tr_block true (bsize body) false 1 s1 body) as [[loop s2]|] eqn:E2; [|discriminate].
+  - destruct (tr_block true (bsize body) true 1 s1 body) as [[loop s2]|] eqn:E2; [|discriminate].
     inversion H; subst; cbn. split; eapply tr_block_skeleton; eauto.
   - inversion H; subst; cbn. split; [eapply tr_block_skeleton; eauto | reflexivity].
 Qed.
